@@ -1761,11 +1761,25 @@ func (tx *SQLTx) doUpsert(ctx context.Context, pkEncVals []byte, valuesByColID m
 
 		// no other equivalent entry should be already indexed
 		if index.IsUnique() {
-			_, valRef, err := tx.getWithPrefix(ctx, smkey, nil)
-			if err == nil && (valRef.KVMetadata() == nil || !valRef.KVMetadata().Deleted()) {
-				return store.ErrKeyAlreadyExists
-			} else if !errors.Is(err, store.ErrKeyNotFound) {
-				return err
+			// every entry carrying the indexed values has to be looked at: the first
+			// one may be the logically deleted entry of a row removed earlier, and a
+			// live entry of another row may follow it
+			var neq []byte
+
+			for {
+				key, valRef, err := tx.tx.GetWithPrefixAndFilters(ctx, smkey, neq)
+				if errors.Is(err, store.ErrKeyNotFound) {
+					break
+				}
+				if err != nil {
+					return err
+				}
+
+				if valRef.KVMetadata() == nil || !valRef.KVMetadata().Deleted() {
+					return store.ErrKeyAlreadyExists
+				}
+
+				neq = key
 			}
 		}
 
